@@ -350,6 +350,18 @@ func calculateReuseIndexFor(r *Rule, oldResTcs []TrafficShapingController) (equa
 // buildResourceTrafficShapingController builds TrafficShapingController slice from rules. the resource of rules must be equals to res.
 func buildResourceTrafficShapingController(res string, resRules []*Rule, oldResTcs []TrafficShapingController) []TrafficShapingController {
 	newTcsOfRes := make([]TrafficShapingController, 0, len(resRules))
+	// Old controllers that belong to a rule which is unchanged in the new list are reserved for it:
+	// they must not donate their statistic to a modified rule that happens to be listed earlier,
+	// otherwise the unchanged rule is rebuilt from scratch and loses its runtime state.
+	reserved := make(map[TrafficShapingController]bool, len(oldResTcs))
+	for _, rule := range resRules {
+		for _, oldTc := range oldResTcs {
+			if !reserved[oldTc] && oldTc.BoundRule().Equals(rule) {
+				reserved[oldTc] = true
+				break
+			}
+		}
+	}
 	for _, rule := range resRules {
 		if res != rule.Resource {
 			logging.Error(errors.Errorf("unmatched resource name, expect: %s, actual: %s", res, rule.Resource), "Unmatched resource name in hotspot.buildResourceTrafficShapingController()", "rule", rule)
@@ -357,6 +369,15 @@ func buildResourceTrafficShapingController(res string, resRules []*Rule, oldResT
 		}
 
 		equalIdx, reuseStatIdx := calculateReuseIndexFor(rule, oldResTcs)
+		if equalIdx < 0 {
+			reuseStatIdx = -1
+			for idx, oldTc := range oldResTcs {
+				if !reserved[oldTc] && oldTc.BoundRule().IsStatReusable(rule) {
+					reuseStatIdx = idx
+					break
+				}
+			}
+		}
 		// there is equivalent rule in old traffic shaping controller slice
 		if equalIdx >= 0 {
 			equalOldTC := oldResTcs[equalIdx]
